@@ -21,7 +21,9 @@ package main
 
 import (
 	"fmt"
+	"go/token"
 	"go/types"
+	"os"
 	"strings"
 
 	"golang.org/x/tools/go/ssa"
@@ -210,6 +212,31 @@ func checkC13(ctx *Ctx, r *Report, tier string) {
 		r.floor("S8", 1)
 	} else {
 		r.undecided("S8", "LoadSTL", 0, "not found")
+	}
+	// S9: the batch writer announces len(mesh) records in the header before it writes them: the
+	// record write has to happen for every element of the mesh (no filter, no early exit), or
+	// the count no longer matches the file and the loader takes it for a text file.
+	if save := ctx.ssaFunc("render", "SaveSTL"); save != nil {
+		n := 0
+		allInstrs(save, func(b *ssa.BasicBlock, ins ssa.Instruction) {
+			c, ok := ins.(*ssa.Call)
+			if !ok {
+				return
+			}
+			f := c.Call.StaticCallee()
+			if f == nil || f.String() != "encoding/binary.Write" || innermostLoop(save, b) == nil {
+				return
+			}
+			n++
+			ok2, why := everyIterationReaches(save, ins)
+			r.check("S9", fmt.Sprintf("SaveSTL|record-write#%d-for-every-triangle", n), c.Pos(), ok2, "the header count is len(mesh): one record per element, unconditionally; "+why)
+		})
+		if n == 0 {
+			r.undecided("S9", "SaveSTL", save.Pos(), "no record write inside a loop")
+		}
+		r.floor("S9", 1)
+	} else {
+		r.undecided("S9", "SaveSTL", 0, "not found")
 	}
 
 	// S4 writers
@@ -482,10 +509,93 @@ func checkSTLOrdering(ctx *Ctx, r *Report, writers map[string]*ssa.Function) {
 				}
 			}
 		}
+		if !okUncond {
+			// the path conditions of code behind a loop with several exits are exit disjunctions,
+			// not guards: decide the same thing on the control-flow graph - every path from the
+			// goroutine's entry to its return that never takes the failure side of an error test
+			// passes Flush, Seek and the header write
+			isEnd := func(kind string) func(ssa.Instruction) bool {
+				return func(ins ssa.Instruction) bool {
+					c, ok := ins.(*ssa.Call)
+					if !ok {
+						return false
+					}
+					f := c.Call.StaticCallee()
+					if f == nil {
+						return false
+					}
+					switch kind {
+					case "flush":
+						return f.Name() == "Flush"
+					case "seek":
+						return f.Name() == "Seek"
+					default:
+						if f.String() != "encoding/binary.Write" || len(c.Call.Args) != 3 {
+							return false
+						}
+						return strings.Contains(c.Call.Args[2].Type().String(), "STLHeader") || func() bool {
+							if mi, ok := c.Call.Args[2].(*ssa.MakeInterface); ok {
+								return strings.Contains(mi.X.Type().String(), "STLHeader")
+							}
+							return false
+						}()
+					}
+				}
+			}
+			if goodPathsHit(fn, isEnd("flush")) && goodPathsHit(fn, isEnd("seek")) && goodPathsHit(fn, isEnd("hdr")) {
+				okUncond = true
+				ucDetail = " (decided on the control-flow graph: error-free paths all pass Flush, Seek and the header write)"
+			}
+		}
 		r.check("S5", "writeSTL|flush-and-header-on-every-successful-path", fn.Pos(), okUncond, "Flush, Seek and the header rewrite depend on nothing but earlier I/O errors;"+ucDetail)
 		// the counter: a recurrence with step +1 whose increment is gated by a successful write
 		okCnt := false
 		detail := ""
+		if hdrCount != nil && hdrCount.Op == "ite" {
+			// the loop over the batches has more than one way out (a break after a failed batch):
+			// the count is then a choice between the running counters at those exits; each of them
+			// must be the counter (outer: starts at 0; inner: outer + 1 per record)
+			var leaves []candidate
+			valueLeaves(hdrCount, &leaves)
+			isInner := func(t *Term) (outer string, ok bool) {
+				if t.Op != "a" {
+					return "", false
+				}
+				r2, has := recs[t.S]
+				if !has || r2.Step.Key() != Add(K(1), A(t.S)).Key() || r2.Init.Op != "a" {
+					return "", false
+				}
+				return r2.Init.S, true
+			}
+			isOuter := func(name string) bool {
+				rc, has := recs[name]
+				if !has || !rc.Init.IsZero() {
+					return false
+				}
+				var vals []candidate
+				valueLeaves(rc.Step, &vals)
+				for _, v := range vals {
+					if v.t.Op == "a" && v.t.S == name {
+						continue
+					}
+					if o, ok := isInner(v.t); !ok || o != name {
+						return false
+					}
+				}
+				return true
+			}
+			okCnt = len(leaves) > 0
+			for _, l := range leaves {
+				if o, ok := isInner(l.t); ok && isOuter(o) {
+					continue
+				}
+				if l.t.Op == "a" && isOuter(l.t.S) {
+					continue
+				}
+				okCnt = false
+				detail += " exit value " + shortKey(l.t.Key(), 60) + " is not the record counter;"
+			}
+		}
 		if hdrCount != nil && hdrCount.Op == "a" {
 			detail = "Count = " + hdrCount.S
 			if rc, ok := recs[hdrCount.S]; ok {
@@ -502,6 +612,18 @@ func checkSTLOrdering(ctx *Ctx, r *Report, writers map[string]*ssa.Function) {
 				}
 				okCnt = len(inner) == 1 && rc.Init.IsZero()
 				detail += fmt.Sprintf(" init=%s step=%s inner=%d", rc.Init.Key(), shortKey(rc.Step.Key(), 200), len(inner))
+			}
+		}
+		if os.Getenv("VERIF_DEBUG") != "" && hdrCount != nil {
+			fmt.Println("DEBUG S5 hdrCount", hdrCount.Key())
+			cur := hdrCount
+			for i := 0; i < 6 && cur.Op == "a"; i++ {
+				rc, ok := recs[cur.S]
+				if !ok {
+					break
+				}
+				fmt.Println("   rec", cur.S, "init", shortKey(rc.Init.Key(), 200), "step", shortKey(rc.Step.Key(), 300))
+				cur = rc.Init
 			}
 		}
 		r.check("S5", "writeSTL|count-is-number-of-records-written", fn.Pos(), okCnt, "header Count is a counter starting at 0 and incremented by exactly 1 per record; "+detail)
@@ -631,40 +753,45 @@ func normalClosedForm(ctx *Ctx, r *Report, fn *ssa.Function, key string) {
 }
 
 // checkTruncate: S7.
+// createdTruncated: does fn create its output file so that an existing longer file leaves no
+// tail behind (os.Create, or os.OpenFile with O_CREATE|O_TRUNC and write access)?
+func createdTruncated(fn *ssa.Function) (ok bool, detail string) {
+	detail = "no file creation found"
+	allInstrs(fn, func(b *ssa.BasicBlock, ins ssa.Instruction) {
+		c, isCall := ins.(*ssa.Call)
+		if !isCall {
+			return
+		}
+		f := c.Call.StaticCallee()
+		if f == nil {
+			return
+		}
+		switch f.String() {
+		case "os.Create":
+			ok = true
+			detail = "os.Create"
+		case "os.OpenFile":
+			if fl, isC := constInt(c.Call.Args[1]); isC {
+				const oTrunc, oCreate = 0x200, 0x40
+				ok = fl&oTrunc != 0 && fl&oCreate != 0 && fl&3 != 0
+				detail = fmt.Sprintf("os.OpenFile flags 0x%x", fl)
+			} else {
+				ok = false
+				detail = "os.OpenFile with non-constant flags"
+			}
+		}
+	})
+	return ok, detail
+}
+
 func checkTruncate(ctx *Ctx, r *Report) {
-	n := 0
 	for _, name := range []string{"SaveSTL", "writeSTL"} {
 		fn := ctx.ssaFunc("render", name)
 		if fn == nil {
 			r.undecided("S7", name, 0, "not found")
 			continue
 		}
-		ok := false
-		detail := "no file creation found"
-		allInstrs(fn, func(b *ssa.BasicBlock, ins ssa.Instruction) {
-			c, isCall := ins.(*ssa.Call)
-			if !isCall {
-				return
-			}
-			f := c.Call.StaticCallee()
-			if f == nil {
-				return
-			}
-			switch f.String() {
-			case "os.Create":
-				ok = true
-				detail = "os.Create"
-			case "os.OpenFile":
-				if fl, isC := constInt(c.Call.Args[1]); isC {
-					const oTrunc, oCreate = 0x200, 0x40
-					ok = fl&oTrunc != 0 && fl&oCreate != 0 && fl&3 != 0
-					detail = fmt.Sprintf("os.OpenFile flags 0x%x", fl)
-				} else {
-					detail = "os.OpenFile with non-constant flags"
-				}
-			}
-		})
-		n++
+		ok, detail := createdTruncated(fn)
 		r.check("S7", name+"|file-created-truncated", fn.Pos(), ok, "an existing longer file must not leave a tail behind (size = 84 + 50·count): "+detail)
 	}
 	r.floor("S7", 2)
@@ -678,4 +805,46 @@ func valueLeaves(t *Term, out *[]candidate) {
 		return
 	}
 	*out = append(*out, candidate{nil, t})
+}
+
+// goodPathsHit: every path from fn's entry to a return that never takes the failure side of a
+// test of an error value passes an instruction for which hit holds.
+func goodPathsHit(fn *ssa.Function, hit func(ssa.Instruction) bool) bool {
+	seen := map[*ssa.BasicBlock]bool{}
+	var walk func(b *ssa.BasicBlock) bool
+	walk = func(b *ssa.BasicBlock) bool {
+		if seen[b] {
+			return true
+		}
+		seen[b] = true
+		for _, ins := range b.Instrs {
+			if hit(ins) {
+				return true
+			}
+			if _, ok := ins.(*ssa.Return); ok {
+				return false
+			}
+		}
+		succs := b.Succs
+		if iff, ok := b.Instrs[len(b.Instrs)-1].(*ssa.If); ok && len(succs) == 2 && isErrorCond(iff.Cond) {
+			if bo, ok := iff.Cond.(*ssa.BinOp); ok {
+				switch bo.Op {
+				case token.NEQ:
+					succs = succs[1:] // x != nil: the true side is the failure
+				case token.EQL:
+					succs = succs[:1]
+				}
+			}
+		}
+		for _, s := range succs {
+			if !walk(s) {
+				return false
+			}
+		}
+		return true
+	}
+	if len(fn.Blocks) == 0 {
+		return false
+	}
+	return walk(fn.Blocks[0])
 }
